@@ -207,7 +207,7 @@ NOT_YET = "not claimed"
 
 m = {
  "version": 1,
- "setup_cmd": "cd /verif/harness && cargo build --offline --workspace -q && cargo build --offline --release -q -p hx_sample && cd /verif/harness_nostd && cargo build --offline -q -p hx_rms_nostd",
+ "setup_cmd": "cd /verif/harness && cargo build --offline --workspace -q && cargo build --offline --workspace --release -q && cd /verif/harness_nostd && cargo build --offline -q -p hx_rms_nostd && cargo build --offline --release -q -p hx_rms_nostd",
  "hooks": {
   "guard": "rustaudio_dasp_verif",
   "enable": "rustflags --cfg rustaudio_dasp_verif in /verif/harness/.cargo/config.toml (cargo is always run from /verif/harness)",
